@@ -54,6 +54,12 @@ func (db *DB) Canon() string {
 	for _, k := range keys {
 		v := db.Keys[k]
 		fmt.Fprintf(&sb, "%q=%s:", k, v.T)
+		if v.HasDead { // a deadline is part of the state (PERSIST, EXPIRE NX/XX/GT/LT, KEEPTTL observe it)
+			fmt.Fprintf(&sb, "@%d-%d:", v.Dmin, v.Dmax)
+		}
+		if v.XHas {
+			fmt.Fprintf(&sb, "last%s:", v.XLast)
+		}
 		switch v.T {
 		case "string":
 			fmt.Fprintf(&sb, "%q", v.S)
